@@ -37,6 +37,9 @@ pub struct StarkConfig {
     pub n_verifier_friendly_commitment_layers: Felt,
 }
 
+const MAX_LOG_BLOWUP_FACTOR: u64 = 16;
+const MAX_N_QUERIES: u64 = 48;
+
 impl StarkConfig {
     pub fn security_bits(&self) -> Felt {
         self.n_queries * self.log_n_cosets + Felt::from(self.proof_of_work.n_bits)
@@ -49,6 +52,15 @@ impl StarkConfig {
         num_columns_second: Felt,
     ) -> Result<(), Error> {
         self.proof_of_work.validate()?;
+
+        ensure!(
+            self.log_n_cosets >= Felt::ONE && self.log_n_cosets <= MAX_LOG_BLOWUP_FACTOR.into(),
+            Error::OutOfBounds { min: 1, max: MAX_LOG_BLOWUP_FACTOR }
+        );
+        ensure!(
+            self.n_queries >= Felt::ONE && self.n_queries <= MAX_N_QUERIES.into(),
+            Error::OutOfBounds { min: 1, max: MAX_N_QUERIES }
+        );
 
         ensure!(security_bits <= self.security_bits(), Error::InsufficientSecurity);
 
@@ -67,7 +79,15 @@ impl StarkConfig {
             .validate(log_eval_domain_size, self.n_verifier_friendly_commitment_layers)?;
 
         // Validate Fri config.
-        self.fri.validate(self.log_n_cosets, self.n_verifier_friendly_commitment_layers)?;
+        let log_expected_degree =
+            self.fri.validate(self.log_n_cosets, self.n_verifier_friendly_commitment_layers)?;
+        ensure!(
+            log_expected_degree == self.log_trace_domain_size,
+            Error::DegreeBoundMismatch {
+                expected: self.log_trace_domain_size,
+                actual: log_expected_degree
+            }
+        );
         Ok(())
     }
 }
@@ -91,6 +111,10 @@ pub enum Error {
     DynamicParamsMissing,
     #[error("insufficient number ofsecurity bits")]
     InsufficientSecurity,
+    #[error("value out of bounds {min} - {max}")]
+    OutOfBounds { min: u64, max: u64 },
+    #[error("fri degree bound 2^{actual} does not match the trace length 2^{expected}")]
+    DegreeBoundMismatch { expected: Felt, actual: Felt },
 }
 
 #[cfg(not(feature = "std"))]
@@ -111,4 +135,8 @@ pub enum Error {
     DynamicParamsMissing,
     #[error("insufficient number ofsecurity bits")]
     InsufficientSecurity,
+    #[error("value out of bounds {min} - {max}")]
+    OutOfBounds { min: u64, max: u64 },
+    #[error("fri degree bound 2^{actual} does not match the trace length 2^{expected}")]
+    DegreeBoundMismatch { expected: Felt, actual: Felt },
 }
